@@ -8,15 +8,22 @@ CONFIG = dict(
                "goroutines, the consumer and Stop, any channel capacity and fill level (posters blocked on a full channel included): every closure whose "
                "Post returned is executed/queued exactly once, each poster's closures run in posting order, a panicking closure never stops the consumer, "
                "a Post after Stop is refused without crashing and never runs; and for every chain length, error position and task behaviour (sync, later, "
-               "from other goroutines): tasks run as 0,1,2,.. in order, each receives its predecessor's results, the first error goes straight to final, "
-               "final runs at most once (exactly once when every invoked task completed exactly once) and tasks/final only run inside posted closures. "
+               "from other goroutines, never): task invocations are 0,1,2,.. in order without repetition (unconditionally); when every invoked task completes at "
+               "most once, each task receives its predecessor's results, the first error goes straight to final and final runs at most once - exactly once "
+               "when every invoked task completed exactly once and the scheduler ran what the chain posted (a task completing twice does run final twice: "
+               "theorem double_completion_runs_final_twice); tasks/final only run inside posted closures; an invoked task that has not completed - in "
+               "particular an unset (nil) entry of the task list, whose call panics under doTask's recover - stalls the chain: no later task, nothing queued, "
+               "no final (uncompleted_task_stalls_chain); a chain whose scheduler is stopped at an arbitrary point refines the plain chain model (callback "
+               "calls after Stop are dropped by Post), so every safety theorem holds for it, and final can then be lost (stop_before_completion_loses_final). "
                "The facts the scheduler theorems depend on (selfBlockDefend = false and assigned nowhere, QueueSize, recover in doTask/Post) are "
                "re-extracted from the Go source on every run; the models are tied to the code by running the real Sche with its Handler() and with a "
-               "RunService, 1-8 concurrent posters, fill levels 0/998/999/1000/1500 and Stop at scripted points, and real waterfall chains of length 0-6, "
-               "each op run to quiescence in a synctest bubble; the property predicate is evaluated on the implementation's own execution logs.",
+               "RunService, 1-8 concurrent posters, fill levels 0/998/999/1000/1500 and Stop at scripted points, and real waterfall chains of length 0-6 (nil steps at every position, task lists that are adjacent "
+               "windows of one backing array with spare capacity), each op run to quiescence in a synctest bubble; the property predicate is evaluated on the implementation's own execution logs.",
     level_note="Partial: Go channel semantics (bounded FIFO, atomic send, blocked senders resumed in any order) and the Go scheduler are assumed, not "
                "verified; goroutine identity is observed by the harness (goroutine ids), not proved; closures still queued at Stop are outside the "
-               "statement. The theorems are about the models; the differential run ties them to the code on sampled schedules only.",
+               "statement; the self-post deadlock on a full channel is not expressible in the scheduler model (its consume step stays enabled) and is "
+               "an assumption; one consumer per scheduler is assumed (two live run services created with the same explicit name share one channel - not "
+               "modelled); sche.MultiSelector is exercised by the RunService runs but not modelled. The theorems are about the models; the differential run ties them to the code on sampled schedules only.",
     gen=["cd harness && go1.26 run ./extract/c15 -out ../lean/Cell2v/Gen/C15Consts.lean"],
     lean_targets=["Cell2v.Props.C15", "modeld_c15"],
     driver="modeld_c15",
@@ -24,7 +31,9 @@ CONFIG = dict(
     audit="Audit/C15.lean",
     required_theorems=["shipped_source_facts", "shipped_sound", "shipped_scheduler_correct", "post_exactly_once", "per_poster_fifo", "panic_does_not_block_later",
                        "post_after_stop_is_harmless", "overflow_path_breaks_fifo", "tasks_in_order", "args_threaded",
-                       "error_jumps_to_final", "final_at_most_once", "final_exactly_once", "everything_via_post", "anonymous_service_gets_own_scheduler", "same_name_same_scheduler", "name_reused_after_stop_gets_fresh_scheduler"],
+                       "error_jumps_to_final", "final_at_most_once", "final_exactly_once", "everything_via_post",
+                       "uncompleted_task_stalls_chain", "stopping_scheduler_refines_chain", "final_at_most_once_with_stop", "completion_after_stop_is_dropped",
+                       "stop_before_completion_loses_final", "double_completion_runs_final_twice", "anonymous_service_gets_own_scheduler", "same_name_same_scheduler", "name_reused_after_stop_gets_fresh_scheduler"],
     harness_pkg="./c15",
     mode="accept",
     reset_prefix="reset",
@@ -48,7 +57,9 @@ CONFIG = dict(
          "Stop; every op runs to quiescence in a testing/synctest bubble and reports the execution log, the executing goroutine, len(chanTask) and per "
          "poster ok/nil/blocked/panicked counts; the log must be accepted by the model (nondeterministic interleavings) and satisfy the property predicate. "
          "Waterfall cases: chains of length 0-6 through waterfall.Sche / Builder, every error position, task completion sync / from another goroutine / "
-         "later via goroutine, caller, timer or a posted closure / never / twice / panicking before or after completing, several chains interleaved, "
+         "later via goroutine, caller, timer or a posted closure / never / twice / panicking before or after completing / unset (a nil entry of the task "
+         "list, any position, Sche and Builder), task lists allocated on their own or carved as adjacent windows out of one shared backing array "
+         "(mem=arena: spare capacity reaching into the next chain's tasks), several chains interleaved, "
          "chains started from the test goroutine / a foreign goroutine / a closure on the consumer, with the consumer idle or parked behind "
          "0/3/997/998/999 queued closures (the starter then blocks in Post on the full channel), each task checked for a usable callback, "
          "completions after Stop; events compared one by one with the model. Multi-service cases: up to 8 run services, anonymous "
@@ -59,11 +70,11 @@ CONFIG = dict(
          "Registry race (real time, outside the bubble): 2-4 goroutines call Mgr.GetSche with one fresh name while the harness holds the "
          "manager's lock until all are parked on it; all must get the same registered scheduler and every closure posted through any handle "
          "must run. A second run repeats the generators on one P (GOMAXPROCS=1: woken goroutines "
-         "run late). A deterministic sweep (every length x error position x mode, every fill "
-         "level x both consumers) runs first. Non-trivial = an op on which at least one closure/task/final ran; distinct = distinct (op, observation) pairs.",
+         "run late). A deterministic sweep (every length x error position x mode, every nil-step position x length 1-4 x "
+         "sync/goroutine/later, arena-window chains back to back idle and parked, every fill level x both consumers) runs first. Non-trivial = an op on which at least one closure/task/final ran; distinct = distinct (op, observation) pairs.",
     trusted_base=[
         "Lean 4.33.0 kernel; axioms of every property theorem audited on each run (allowed: propext, Classical.choice, Quot.sound)",
-        "hand-written models lean/Cell2v/Model/Sche.lean, Model/Waterfall.lean and Model/ScheMgr.lean (scheduler registry), tied to the Go code by the differential run of this check (harness/c15 + modeld_c15)",
+        "hand-written models lean/Cell2v/Model/Sche.lean, Model/Waterfall.lean (Chain, and SChain = chain + Stop, used by the driver for every callback call) and Model/ScheMgr.lean (scheduler registry), tied to the Go code by the differential run of this check (harness/c15 + modeld_c15)",
         "translator harness/extract/c15 (go/ast, ~250 lines): selfBlockDefend initial value and absence of assignments, QueueSize, chanTask capacity, recover() in doTask and Post",
         "Go channel semantics: bounded FIFO buffer, a send is one atomic step, a send on a closed channel panics, blocked senders resume in some order",
         "testing/synctest (go1.26) quiescence detection; goroutine ids parsed from runtime.Stack by the harness",
@@ -73,6 +84,8 @@ CONFIG = dict(
         "closures still queued when the scheduler is stopped may or may not run (any prefix, in order) - outside the property statement",
         "Stop is called at most once (a second close panics in the caller; not part of the property)",
         "a closure that posts to its own scheduler while the channel is full deadlocks the consumer (documented above Post; theorem self_post_on_full_queue_deadlocks) - waterfall chains assume room in the channel",
+        "at most one consumer goroutine per scheduler: RunService.Start is called once and no two live run services are created with the same explicit name (they would share one channel)",
+        "the final function of a chain is set (Builder.Do without Final calls a nil func inside the closure: recovered, chain ends silently) - not generated",
         "waterfall.Simple and waterfall.ExecAndWait (same file as the Callback/Task types) are not scheduler-bound and not covered",
     ],
 )
